@@ -16,6 +16,9 @@
  *                             (closed: the client half-closes after them; else it just stays silent)
  *   wx <b64> <len> <seed>     rfbWriteExact of len pseudo-random bytes on a WebSocket connection
  * Part 2 (end to end, checked by the Python oracle): conn / seg / rs / pump / scut / out, see below.
+ *   thr <tcp|ws> <auth> <markerkey> <deadline-ms> <prehex> <seghex>...
+ *                             the same kind of conversation served by the THREADED loop
+ *                             (rfbRunEventLoop(..., TRUE) + a clientInput thread), in a child process
  */
 #define _GNU_SOURCE
 #include "sess.h"
@@ -29,6 +32,7 @@
 #include <sys/resource.h>
 #include <sys/time.h>
 #include <signal.h>
+#include <pthread.h>
 
 /* ------------------------------------------------------------------ decoder through the callback */
 static ws_ctx_t *W;
@@ -131,6 +135,7 @@ typedef struct {
 } e2e_t;
 static e2e_t E[MAXC];
 static rfbScreenInfoPtr scr;
+static int thr_mode, thr_done; static unsigned long thr_marker;   /* set in the child of a `thr` op only */
 
 static e2e_t *by_srvfd(int fd) {
   int i;
@@ -153,7 +158,7 @@ int select(int nfds, fd_set *r, fd_set *w, fd_set *x, struct timeval *t) {
   static int (*real)(int, fd_set *, fd_set *, fd_set *, struct timeval *);
   int fd;
   if (!real) real = (int (*)(int, fd_set *, fd_set *, fd_set *, struct timeval *))dlsym(RTLD_NEXT, "select");
-  if (r)
+  if (r && !thr_mode)
     for (fd = 0; fd < nfds; fd++)
       if (FD_ISSET(fd, r)) {
         e2e_t *e = by_srvfd(fd);
@@ -175,7 +180,7 @@ ssize_t read(int fd, void *buf, size_t n) {
   static ssize_t (*real)(int, void *, size_t);
   e2e_t *e;
   if (!real) real = (ssize_t (*)(int, void *, size_t))dlsym(RTLD_NEXT, "read");
-  e = scr ? by_srvfd(fd) : NULL;
+  e = (scr && !thr_mode) ? by_srvfd(fd) : NULL;
   if (e && e->nrs && n > 0) {
     int k = -1;
     if (e->irs < e->nrs) { k = e->rs[e->irs++]; if (e->rscyc && e->irs == e->nrs) e->irs = 0; }
@@ -185,14 +190,26 @@ ssize_t read(int fd, void *buf, size_t n) {
   return real(fd, buf, n);
 }
 
+static pthread_mutex_t evmu = PTHREAD_MUTEX_INITIALIZER;   /* callbacks run in clientInput threads in `thr` */
 static void evf(rfbClientPtr cl, const char *fmt, ...) {
   vh_conn *c = (vh_conn *)cl->clientData; e2e_t *e = (e2e_t *)c;
   char tmp[128]; va_list ap; int n;
+  if (!e) return;
   va_start(ap, fmt); n = vsnprintf(tmp, sizeof tmp, fmt, ap); va_end(ap);
+  pthread_mutex_lock(&evmu);
   if (e->ev.n) vh_buf_add(&e->ev, ",", 1);
   vh_buf_add(&e->ev, tmp, (size_t)n);
+  pthread_mutex_unlock(&evmu);
 }
-static void on_kbd(rfbBool down, rfbKeySym key, rfbClientPtr cl) { evf(cl, "k%d:%lu", down ? 1 : 0, (unsigned long)key); }
+static void on_kbd(rfbBool down, rfbKeySym key, rfbClientPtr cl) {
+  evf(cl, "k%d:%lu", down ? 1 : 0, (unsigned long)key);
+  if (thr_mode && (unsigned long)key == thr_marker) __atomic_store_n(&thr_done, 1, __ATOMIC_RELEASE);
+}
+/* `thr` with auth=1: VNC authentication whose accepted response is a constant, so that the client
+   can send it without waiting for the challenge (response + ClientInit in one frame) */
+static rfbBool c09_pwcheck(rfbClientPtr cl, const char *resp, int len) {
+  (void)cl; return (len == 16 && !memcmp(resp, "0123456789abcdef", 16)) ? TRUE : FALSE;
+}
 static void on_ptr(int mask, int x, int y, rfbClientPtr cl) { evf(cl, "p%d:%d:%d", mask, x, y); }
 static void on_cut(char *s, int len, rfbClientPtr cl) { evf(cl, "c%d:%016llx", len, (unsigned long long)vh_fnv((unsigned char *)s, (size_t)len)); }
 
@@ -403,6 +420,75 @@ int main(void) {
       got = read(pfd[0], line2, sizeof line2 - 1); close(pfd[0]);
       if (got > 0) { line2[got] = 0; printf("peek %s\n", line2); }
       else printf("peek hung after 1500 ms (killed)\n");
+    }
+    /* thr: the conversation through the threaded loop.  Child process: the library's listener thread
+       runs (without listening sockets), the connection gets its clientInput thread exactly like an
+       accepted one (rfbNewClient + rfbStartOnHoldClient); this thread plays the client: sends the
+       segments back to back, then waits until the callback for the marker key has run (or the
+       connection is closed, or the deadline passes). */
+    else if (!strcmp(tok[0], "thr") && n >= 6) {
+      int pfd[2]; pid_t pid; int status = 0, waited = 0, deadline = atoi(tok[4]); vh_buf res = {0};
+      need_screen();
+      if (deadline <= 0 || pipe(pfd) < 0) { puts("bad-op"); continue; }
+      fflush(stdout);
+      pid = fork();
+      if (pid == 0) {
+        e2e_t *e = &E[MAXC - 1]; int sv[2], i, eof = 0, done = 0; long k; struct timeval t0, t1; long ms = 0;
+        FILE *o = fdopen(pfd[1], "w");
+        close(pfd[0]);
+        memset(e, 0, sizeof *e); e->used = 1; e->ws = !strcmp(tok[1], "ws");
+        if (atoi(tok[2])) { scr->authPasswdData = (void *)"x"; scr->passwordCheck = c09_pwcheck; }
+        scr->maxClientWait = 20000;
+        thr_mode = 1; thr_marker = strtoul(tok[3], NULL, 10);
+        rfbRunEventLoop(scr, 40000, TRUE);
+        if (socketpair(AF_UNIX, SOCK_STREAM, 0, sv) < 0) _exit(3);
+        fcntl(sv[1], F_SETFL, fcntl(sv[1], F_GETFL) | O_NONBLOCK);
+        e->c.peer = sv[1]; e->c.srvfd = sv[0];
+        k = vh_unhex(tok[5], hb, hcap);
+        if (k < 0 || write(sv[1], hb, (size_t)k) != (ssize_t)k) _exit(3);
+        e->c.cl = rfbNewClient(scr, sv[0]);
+        if (!e->c.cl) { fprintf(o, "thr conn=fail"); fflush(o); _exit(0); }
+        e->c.cl->clientData = &e->c;
+        { int isws = e->c.cl->wsctx != NULL, b64 = isws && ((ws_ctx_t *)e->c.cl->wsctx)->base64;
+          rfbStartOnHoldClient(e->c.cl);
+          fprintf(o, "thr conn=ok ws=%d b64=%d", isws, b64 ? 1 : 0); }
+        for (i = 6; i < n; i++) {
+          k = vh_unhex(tok[i], hb, hcap);
+          if (k < 0 || vh_send(&e->c, hb, (size_t)k) < 0) break;
+        }
+        gettimeofday(&t0, NULL);
+        while (!done && !eof && ms < deadline) {
+          eof = vh_drain(&e->c);
+          done = __atomic_load_n(&thr_done, __ATOMIC_ACQUIRE);
+          if (!done && !eof) usleep(500);
+          gettimeofday(&t1, NULL);
+          ms = (t1.tv_sec - t0.tv_sec) * 1000 + (t1.tv_usec - t0.tv_usec) / 1000;
+        }
+        usleep(20000); if (vh_drain(&e->c)) eof = 1;
+        pthread_mutex_lock(&evmu);
+        fprintf(o, " done=%d closed=%d ev=", done, eof);
+        if (e->ev.n) fwrite(e->ev.p, 1, e->ev.n, o); else fputc('-', o);
+        pthread_mutex_unlock(&evmu);
+        fprintf(o, " out=");
+        if (e->c.out.n) vh_puthex(o, e->c.out.p, e->c.out.n); else fputc('-', o);
+        fflush(o);
+        _exit(0);
+      }
+      close(pfd[1]);
+      fcntl(pfd[0], F_SETFL, fcntl(pfd[0], F_GETFL) | O_NONBLOCK);
+      for (;;) {
+        char tmp[4096]; ssize_t got = read(pfd[0], tmp, sizeof tmp);
+        if (got > 0) { vh_buf_add(&res, tmp, (size_t)got); continue; }
+        if (got == 0) break;
+        if (waited >= deadline + 5000) break;
+        usleep(2000); waited += 2;
+      }
+      close(pfd[0]);
+      if (waitpid(pid, &status, WNOHANG) == 0) { kill(pid, SIGKILL); waitpid(pid, &status, 0); }
+      if (res.n) fwrite(res.p, 1, res.n, stdout); else printf("thr no-report");
+      if (!WIFEXITED(status) || WEXITSTATUS(status) != 0) printf(" child-status=%d", status);
+      putchar('\n');
+      free(res.p);
     }
     /* ---------------- end to end ---------------- */
     else if (!strcmp(tok[0], "conn") && n >= 3) {
